@@ -6,6 +6,7 @@ RULES = {
     "P2": rules_state.rule_P2,
     "P2b": rules_state.rule_P2b,
     "M1": rules_state.rule_M1,
+    "Y1": rules_state.rule_Y1,
     "N1": rules_arith.rule_N1,
     "N2": rules_arith.rule_N2,
     "E1": rules_except.rule_E1,
@@ -100,7 +101,7 @@ PROPS = {
     "C05": {
         "id": "C05",
         "title": "No call corrupts memory or hangs: misuse is reported by exception",
-        "rules": ["G1", "G2", "G3", "G5", "G6", "E1", "A1", "Z1", "Z2", "D2", "G7", "N4", "A2", "Q1", "E2"],
+        "rules": ["G1", "G2", "G3", "G5", "G6", "E1", "A1", "Z1", "Z2", "D2", "G7", "N4", "A2", "Q1", "E2", "Y1"],
         "clause": "guard completeness (mechanisms 1-3 of the anchors): every plan solve() checks the input length with a live "
                   "check before mixing it with plan tables; every foreign-bound subscript and caller-supplied index in a public "
                   "function is dominated by a live relating guard; slices are range-checked at creation and count-checked at "
@@ -108,7 +109,9 @@ PROPS = {
                   "are entailed by live checks along every call chain from the public entry points (through constructors, "
                   "make_shared and construction-time constant members) where the chain is modelled; no integer division by "
                   "never-initialised member state or by a caller-chosen value that no live check keeps away from zero; every subscript of a parameter / local vector whose index is affine in "
-                  "counted-loop variables and whose size is fixed by a live check or by construction stays inside the container (G7)",
+                  "counted-loop variables and whose size is fixed by a live check or by construction stays inside the container (G7); a user-provided "
+                  "assignment operator stores nothing computed from a member of the destination that it has not yet replaced (Y1: a "
+                  "polymorphic member cloned under the old object's type tag is cast to the wrong class)",
         "not_decided": "value-range safety of index arithmetic outside the affine fragment of G7 (subscripts of members without a constructor-established size, of "
                        "results of solve(), indices loaded from data or formed from products of variables), termination and complexity "
                        "(except the C15 clause)",
@@ -141,7 +144,7 @@ PROPS = {
     "C08": {
         "id": "C08",
         "title": "Multirate converters equal the zero-stuff/filter/decimate definition",
-        "rules": ["R1", "H1", "S2", "R2", "N4", "N5", "N6", "P2", "M1"],
+        "rules": ["R1", "H1", "S2", "R2", "N4", "N5", "N6", "P2", "M1", "Y1"],
         "clause": "the documented rejections and the identity case: FIRDecimator and FIRRateConverter reject (by a live throwing check "
                   "on every path to a normal return) frames whose length is not a multiple of the decimation factor; resample returns "
                   "its input unchanged when the reduced ratio is 1; a rejected frame leaves the converter untouched (no member is written on "
